@@ -50,9 +50,17 @@ InjExpect(P, inj) ==
 \* top-level provider-set variables that are not well-formed by themselves (wire check must report them even when no injector uses them)
 InvalidSets(P) == {P.sets[j].pkg \o "." \o P.sets[j].name :
                      j \in {x \in DOMAIN P.sets : ~(ItemsLeavesOK(P, P.sets[x].items) /\ LevelReasons(P, P.sets[x].items, <<>>) = {})}}
+\* size of the provider graph: the analysis must be linear in it (C07), whatever the number of paths
+RECURSIVE GraphSize(_, _)
+GraphSize(P, items) ==
+  SumSeq([j \in DOMAIN items |->
+            IF items[j].k = "set" THEN GraphSize(P, P.sets[items[j].i].items)
+            ELSE LET l == P.leaves[items[j].i] IN 1 + Len(l.ins) + Len(l.sel) + Len(l.names)])
+\* iterations the cycle search / the planner may take: a constant times (nodes + edges) for each set level it looks at
+WorkBound(P) == 8 * (Len(P.sets) + Len(P.injs) + 1) * (1 + SumSeq([i \in DOMAIN P.injs |-> GraphSize(P, P.injs[i].items) + Len(P.injs[i].params)]))
 Case(P) == [key |-> P.key, fam |-> P.fam, prog |-> P,
             expect |-> [i \in DOMAIN P.injs |-> InjExpect(P, P.injs[i])],
-            invalidsets |-> InvalidSets(P)]
+            invalidsets |-> InvalidSets(P), workbound |-> WorkBound(P)]
 
 (* ======================================================================== *)
 (* Family G: every digraph over n types.  Node kinds: "f" provider function *)
